@@ -106,11 +106,18 @@ def generic_traversals(meta, roots, enums):
     tpaths = set(f["path"] for (f, e) in out)
     worklisty = set(p for p in reach if meta.fn(p) is not None and any(
         kind(n) == "Assign" and (hirq.place(n["l"]) or ("",))[0] == "self" for n in walk(meta.fn(p)["body"])))
+    selfrec_fns = set(p for p in reach if meta.fn(p) is not None and any(callee(n) == p for n in walk(meta.fn(p)["body"])))
     for (fn, e) in pending:
-        if e.split("::")[-1] in str(fn.get("output", "")):
-            callers = set(pp for (pp, n) in cg.callers_of(fn["path"]))
-            if callers & (tpaths | worklisty):
-                out.append((fn, e, "returns-children"))
+        callers = set(pp for (pp, n) in cg.callers_of(fn["path"]))
+        if e.split("::")[-1] in str(fn.get("output", "")) and callers & (tpaths | worklisty):
+            out.append((fn, e, "returns-children"))
+            continue
+        # the arm table of one or more recursive traversals factored into `map_children(expr, recurse)`: the children
+        # flow into calls of a closure parameter, and the callers are recursive functions
+        cparams = [p0["id"] for p0 in fn["params"] if p0.get("k") == "PBind" and any(
+            kind(n) == "Call" and isinstance(callee(n), tuple) and callee(n)[1] == p0["id"] for n in walk(fn["body"]))]
+        if cparams and callers & (tpaths | selfrec_fns):
+            out.append((fn, e, "closure-rec", cparams))
     return out, cg, reach
 
 
@@ -120,7 +127,7 @@ def trav(rep, meta, sfx):
                  "every generic traversal reachable from optimize() matches every child-carrying variant "
                  "explicitly and passes every child into the recursion / worklist")
     ts, cg, reach = generic_traversals(meta, [OPTIMIZE], [EXPR, OEXPR])
-    if len(ts) < 5:
+    if len(ts) < 3:
         r.lost("generic traversals reachable from optimize (found %d)" % len(ts))
     # checkable half of the map_bottom_up x RestoreOnErr exemption: who constructs RestoreOnErr
     ctor_sites = []
@@ -133,7 +140,9 @@ def trav(rep, meta, sfx):
     ctor_ok = bool(ctor_sites) and all(p.startswith("pest_meta::optimizer::restorer::") for p, _ in ctor_sites)
     for item in ts:
         fn, e = item[0], item[1]
-        inst, holes = traverse.check(meta, fn, e, returns_children=(len(item) > 2))
+        mode = item[2] if len(item) > 2 else None
+        inst, holes = traverse.check(meta, fn, e, rec_callees=[("local", pid) for pid in item[3]] if mode == "closure-rec" else None,
+                                     returns_children=(mode == "returns-children"))
         short = fn["path"].replace("pest_meta::", "")
         for (v, w) in inst:
             r.instance("%s:%s" % (short, v), w)
@@ -206,15 +215,23 @@ def role_fns(meta):
     out = {"wrap": None, "modifies": None, "convert": None, "unroll": None}
     cands = [meta.fn(p) for p in sorted(reach) if meta.fn(p) is not None and p.startswith("pest_meta::optimizer::")
              and not meta.fn(p).get("exp")]
+    # functions that put a RestoreOnErr around something: the wrapping function itself, or a helper it calls per child
+    wrappers = set(fn["path"] for fn in cands
+                   if any(kind(n) == "Call" and callee(n) == OEXPR + "::RestoreOnErr" for n in walk(fn["body"])))
+    out["wrappers"] = wrappers
     for fn in cands:
-        if any(kind(n) == "Call" and callee(n) == OEXPR + "::RestoreOnErr" for n in walk(fn["body"])) \
-                and traverse.enum_matches(fn, OEXPR):
-            out["wrap"] = fn
+        if not traverse.enum_matches(fn, OEXPR):
+            continue
+        if fn["path"] in wrappers or any(kind(n) in ("Call", "MethodCall") and callee(n) in wrappers for n in walk(fn["body"])):
+            if out["wrap"] is None or fn["path"] in wrappers:
+                out["wrap"] = fn
     if out["wrap"] is not None:
-        for (c, n) in hirq.call_sites(out["wrap"]["body"]):
-            f2 = meta.fn(c)
-            if f2 is not None and f2.get("output") == "bool" and traverse.enum_matches(f2, OEXPR):
-                out["modifies"] = f2
+        hosts = [out["wrap"]] + [meta.fn(p) for p in wrappers if meta.fn(p) is not None]
+        for h in hosts:
+            for (c, n) in hirq.call_sites(h["body"]):
+                f2 = meta.fn(c) if isinstance(c, str) else None
+                if f2 is not None and f2.get("output") == "bool" and traverse.enum_matches(f2, OEXPR):
+                    out["modifies"] = f2
     for fn in cands:
         if fn.get("output") == OEXPR and fn.get("inputs") == [EXPR] and any(callee(n) == fn["path"] for n in walk(fn["body"])):
             out["convert"] = fn
@@ -318,10 +335,12 @@ def wrap(rep, meta, vm, sfx):
     r = rep.rule("C05.RESTORE-WRAP" + sfx, 3,
                  "the restorer wraps the child of every operator whose back-end translation absorbs the child's "
                  "failure outside a `sequence` (optional / repeat first iteration / ordered choice)")
-    fn = role_fns(meta)["wrap"]
+    roles = role_fns(meta)
+    fn = roles["wrap"]
     if fn is None:
         r.lost("the restorer function that inserts RestoreOnErr")
         return
+    wrapper_paths = roles.get("wrappers", set())
     ms = traverse.enum_matches(fn, OEXPR)
     if not ms:
         r.lost("match on OptimizedExpr in wrap_branching_exprs")
@@ -329,7 +348,8 @@ def wrap(rep, meta, vm, sfx):
     handled = {}
     for arm in ms[0]["arms"]:
         for v in hirq.pat_variants(arm["pat"]):
-            wraps = [n for n in walk(arm["body"]) if kind(n) == "Call" and callee(n) == OEXPR + "::RestoreOnErr"]
+            wraps = [n for n in walk(arm["body"]) if kind(n) == "Call" and (
+                callee(n) == OEXPR + "::RestoreOnErr" or (callee(n) in wrapper_paths and callee(n) != fn["path"]))]
             handled[v.split("::")[-1]] = len(wraps)
     # absorbing operators, derived from the VM translation: an arm of parse_expr whose child call
     # `self.parse_expr(child)` is not directly inside a `sequence`/`lookahead`/`restore_on_err`/`stack_push`
